@@ -35,6 +35,11 @@ echo "== suite with patch (demo removed)"
 for d in $DEMOS; do rm -f $CRATE/tests/$(basename "$d"); done
 unshare -m sh -c "mount -t tmpfs tmpfs /tmp && cd $WT && cargo nextest run --workspace --no-fail-fast --offline" > /var/tmp/rvx-confirm/$SID.suite.log 2>&1
 SUITE=$(grep -E "Summary" /var/tmp/rvx-confirm/$SID.suite.log | tail -1)
+# the suite's sleep-based test_backpressure is flaky under load on the unmodified tree too: retry once
+if echo "$SUITE" | grep -q "1 failed" && grep -q "FAIL.*test_backpressure" /var/tmp/rvx-confirm/$SID.suite.log; then
+  unshare -m sh -c "mount -t tmpfs tmpfs /tmp && cd $WT && cargo nextest run --workspace --no-fail-fast --offline" > /var/tmp/rvx-confirm/$SID.suite.log 2>&1
+  SUITE=$(grep -E "Summary" /var/tmp/rvx-confirm/$SID.suite.log | tail -1)
+fi
 echo "$SUITE"
 PASSED=$(echo "$SUITE" | sed -n 's/.* \([0-9]*\) passed.*/\1/p')
 FAILED=$(echo "$SUITE" | grep -c "failed")
